@@ -205,7 +205,12 @@ func (mv mapValue) PropertyValue(iv Value) Value {
 	if !ir.IsValid() {
 		return nilValue
 	}
-	er := mr.MapIndex(ir)
+	// MapIndex panics unless the key is assignable to the map's key type
+	// (e.g. a property name applied to a map[int]any), so convert as IndexValue does.
+	var er reflect.Value
+	if kt := mr.Type().Key(); ir.Type().ConvertibleTo(kt) && ir.Type().Comparable() {
+		er = mr.MapIndex(ir.Convert(kt))
+	}
 	switch {
 	case er.IsValid():
 		return ValueOf(er.Interface())
